@@ -3,6 +3,7 @@
 Monitor: ctypes probes on a shared object compiled at check time from the
 working tree's compmech/lib/src/*.c; oracle O3 (exact rational algebra)."""
 import ctypes
+import os
 from fractions import Fraction as Fr
 
 import numpy as np
@@ -39,7 +40,7 @@ for k in range(40):
 
 
 def plan(tier):
-    return dict(n_cases=len(UNITS), shards=16, min_nontrivial=len(UNITS) - 5,
+    return dict(sanitize={'ctypes_lib': True, 'n_cases': len(UNITS)}, n_cases=len(UNITS), shards=16, min_nontrivial=len(UNITS) - 5,
                 watchdog_s=1800 if tier == 'quick' else 7200, exhaustive=True,
                 min_tags={'unit:func': 30, 'unit:full': 180, 'unit:sub': 180, 'unit:c0c1': 150, 'unit:gauss': 63, 'unit:grid': 40},
                 rule='work units: 30 function indices x 64 rational abscissae x flag sets; the 6 full-interval families '
@@ -58,7 +59,7 @@ def plan(tier):
 def lib():
     global _lib
     if _lib is None:
-        L = ctypes.CDLL(build.build_ctypes_lib())
+        L = ctypes.CDLL(os.environ.get('VERIF_SAN_LIB') or build.build_ctypes_lib())
         for nm in B.FAMILIES:
             fn = getattr(L, 'integral_' + nm); fn.restype = D; fn.argtypes = [I, I] + [D] * 8
             fn = getattr(L, 'integral_' + nm + '_12'); fn.restype = D; fn.argtypes = [D, D, I, I] + [D] * 8
